@@ -368,6 +368,82 @@ def check_grow(ctx, P):
         o.ok("prev linked at %s" % good[0].node.loc, [good[0].node])
 
 
+def check_grow_copy(ctx, P):
+    from symword import Machine
+    g = P.fn("wsd_circular_array_grow")
+    o = ctx.ob("grow.copy", g, "growing copies every live entry: for each index i in [start, end) the new array's slot i receives the old array's slot i; the new "
+               "array has twice the capacity", "an entry that is not copied is a runnable fiber that is never run again; an entry copied to another index is run "
+               "in place of a different one (\"including while a queue grows\")")
+    bad = None
+    cr = g.calls("wsd_circular_array_create")
+    if len(cr) != 1:
+        bad = "shape"
+    else:
+        isls = lambda n: n.k == "ImplicitCastExpr" and n.ck == "LValueToRValue" and strip(n).k == "MemberExpr" and strip(n).field == "log_size"
+        for S, E in ((0, 0), (3, 7), (250, 256), (5, 6), (2 ** 40, 2 ** 40 + 3)):
+            from rules import is_param_load
+            base = atom_from([(is_param_load(g, "start"), S), (is_param_load(g, "end"), E), (isls, 8),
+                              (lambda n: n is cr[0], 0x9000), (is_param_load(g, "a"), 0x7000)])
+            m = Machine(g, P, base)
+            gets, puts = [], []
+            orig = m.exec_elem
+
+            def ex(n, m=m, orig=orig, gets=gets, puts=puts):
+                if n.k == "CallExpr" and n.callee == GET:
+                    gets.append((m.eval(g.args(n)[0]), m.eval(g.args(n)[1])))
+                if n.k == "CallExpr" and n.callee == PUT:
+                    puts.append((m.eval(g.args(n)[0]), m.eval(g.args(n)[1])))
+                return orig(n)
+            m.exec_elem = ex
+            try:
+                m.run("entry", lambda n: n.k == "ReturnStmt" and False, max_blocks=3000)
+                arg = m.eval(g.args(cr[0])[0])
+            except Unevaluable as e:
+                raise AnalysisBroken("wsd_circular_array_grow: cannot interpret the copy loop (%s)" % e)
+            want = list(range(S, E))
+            if [i for _, i in gets] != want or [i for _, i in puts] != want:
+                bad = bad or "start=%d end=%d: reads slots %s, writes slots %s" % (S, E, [i for _, i in gets][:8], [i for _, i in puts][:8])
+            if any(a != 0x7000 for a, _ in gets) or any(a != 0x9000 for a, _ in puts):
+                bad = bad or "the copy does not go from the old array to the new one"
+            if arg != 9:
+                bad = bad or "the new array is created with log_size %s, expected old+1" % arg
+    o.check(bad is None, "copy loop interpreted for 5 ranges", bad, site=g.loc, construct="grow copy loop")
+    o = ctx.ob("array.index", "", "slot i of an array lives at data[i & size_minus_one]; create sets size = 2^log_size and size_minus_one = size - 1",
+               "get and put must agree on the slot of an index, for negative-free 64-bit indices beyond the capacity (wrap)")
+    bad = None
+    ism = lambda n: n.k == "ImplicitCastExpr" and n.ck == "LValueToRValue" and strip(n).k == "MemberExpr" and strip(n).field == "size_minus_one"
+    for name in (GET, PUT):
+        f = P.fn(name)
+        subs = f.all(k="ArraySubscriptExpr")
+        if len(subs) != 1:
+            bad = bad or name + ": shape"
+            continue
+        from rules import is_param_load
+        for i, msk in ((5, 255), (256, 255), (1023, 255), (2 ** 33 + 7, 511)):
+            try:
+                v = ev(f, subs[0].kids[1], atom_from([(is_param_load(f, "i"), i), (ism, msk)]))
+            except Unevaluable:
+                v = None
+            if v != i & msk:
+                bad = bad or "%s: index %d with mask %d -> slot %s" % (name, i, msk, v)
+    c = P.fn("wsd_circular_array_create")
+    from rules import is_param_load
+    for fld, want in (("size", lambda k: 1 << k), ("size_minus_one", lambda k: (1 << k) - 1)):
+        st = c.stores_to("wsd_circular_array", fld)
+        if len(st) != 1:
+            bad = bad or "create: %s not stored once" % fld
+            continue
+        for k in (3, 8, 9):
+            szl = lambda n: n.k == "ImplicitCastExpr" and n.ck == "LValueToRValue" and strip(n).k == "MemberExpr" and strip(n).field == "size"
+            try:
+                v = ev(c, st[0].value, atom_from([(is_param_load(c, "log_size"), k), (szl, 1 << k)]))
+            except Unevaluable:
+                v = None
+            if v != want(k):
+                bad = bad or "create(log_size=%d): %s = %s" % (k, fld, v)
+    o.check(bad is None, "mask tables", bad, site=c.loc, construct="array index mask")
+
+
 def check_owner(ctx, P):
     S = "fiber_scheduler_wsd"
     own = {"fiber_scheduler_schedule", "fiber_scheduler_next", "fiber_scheduler_load_balance"}
@@ -543,6 +619,7 @@ def run(ctx):
     check_push(ctx, P)
     check_fields(ctx, P)
     check_grow(ctx, P)
+    check_grow_copy(ctx, P)
     check_owner(ctx, P)
     stale.check_stale(ctx, P, rule="owner.fresh",
                       why="scheduling through a stale manager pushes onto another kernel thread's deque: two writers of `bottom`")
